@@ -184,4 +184,105 @@ Proof.
   - discriminate.
 Qed.
 
+(** ** for_each_concurrent: a Pending result means n futures are running, or upstream is gone,
+    or upstream's last answer in this call was Pending (limit 0 is the degenerate "saturated"
+    case of finding F8) *)
+Definition fec_sat (a : fec) (w : world) : Prop :=
+  fub_cap (fe_q a) <= fub_len (fe_q a) \/ fe_up a = None \/ lu w = Some UAPend.
+
+Lemma fec_loop_work_conserving own n a t w :
+  winv own None w -> fub_ok own (fe_q a) -> fec_mu a < n -> up_live (fe_up a) ->
+  let '(a', r, w') := fec_loop P n a t w in
+  r = RetPending -> fec_sat a' w'.
+Proof.
+  revert a w. induction n as [|n IH]; intros a w Hw Hok Hmu Hul; [lia|]. cbn [fec_loop].
+  assert (Hpull : let '(a1, pulled, w1) :=
+                    (if Nat.ltb (fub_len (fe_q a)) (fub_cap (fe_q a)) then
+                       match fe_up a with
+                       | Some u =>
+                           let '(u, r, w) := up_poll false u t w in
+                           match r with
+                           | UPItem c =>
+                               match fub_try_push (fe_q a) c w with
+                               | (PushOk f, w) => ({| fe_up := Some u; fe_q := f |}, true, w)
+                               | (_, w) => ({| fe_up := Some u; fe_q := fe_q a |}, true, emit EStuck w)
+                               end
+                           | UPEnd => ({| fe_up := None; fe_q := fe_q a |}, false, emit EUpDrop w)
+                           | _ => ({| fe_up := Some u; fe_q := fe_q a |}, false, w)
+                           end
+                       | None => (a, false, w)
+                       end
+                     else (a, false, w)) in
+                  winv own None w1 /\ fub_ok own (fe_q a1)
+                  /\ (if pulled then S (fec_mu a1) <= fec_mu a else fec_mu a1 <= fec_mu a)
+                  /\ up_live (fe_up a1)
+                  /\ (pulled = false -> fec_sat a1 w1)).
+  { destruct (Nat.ltb_spec (fub_len (fe_q a)) (fub_cap (fe_q a))) as [Hlt|Hge];
+      [|splits; auto; intros _; left; exact Hge].
+    destruct (fe_up a) as [u|] eqn:Hu;
+      [|splits; auto; try (unfold fec_mu; rewrite Hu; lia); try (rewrite Hu; exact I); intros _; right; left; exact Hu].
+    simpl in Hul.
+    pose proof (@winv_up_poll own None false u t w Hul Hw) as Hup.
+    pose proof (up_poll_steps false u t w) as Hst.
+    pose proof (@up_poll_fused false u t w Hul) as Hfu.
+    assert (Hlast : match snd (fst (up_poll false u t w)) with
+                    | UPPend => lu (snd (up_poll false u t w)) = Some UAPend
+                    | UPErr _ => False
+                    | _ => True end).
+    { unfold up_poll. rewrite Hul. destruct (us_steps u) as [|[s|acts| |] rest]; cbn [fst snd]; auto.
+      rewrite lu_do_acts. reflexivity. }
+    destruct (up_poll false u t w) as [[u' r] w1]. simpl in Hup, Hlast. destruct Hst as [S1 S2].
+    destruct r as [c| | |e].
+    - pose proof (@fub_try_push_spec own None (fe_q a) c w1 Hup Hok) as H.
+      destruct (fub_try_push (fe_q a) c w1) as [[f| |] w2].
+      + destruct H as (H1 & H2 & H3 & H4 & H5 & H6). simpl. splits; auto; [|discriminate].
+        unfold fec_mu; simpl. rewrite Hu. lia.
+      + destruct H as [_ H]. lia.
+      + contradiction.
+    - simpl. splits; auto. unfold fec_mu; simpl. rewrite Hu. lia. intros _. right; right. exact Hlast.
+    - simpl. splits; auto. apply winv_emit; auto. unfold fec_mu; simpl. rewrite Hu. lia. intros _. right; left; reflexivity.
+    - contradiction. }
+  destruct (if Nat.ltb (fub_len (fe_q a)) (fub_cap (fe_q a)) then _ else _) as [[a1 pulled] w1].
+  destruct Hpull as (A & B & E & U & Hsat).
+  pose proof (@fub_poll_next_spec P own KFut (fe_q a1) t w1 A B) as H.
+  pose proof (lu_fub_poll_next KFut (fe_q a1) t w1) as Hl.
+  destruct (fub_poll_next P KFut (fe_q a1) t w1) as [[f sp] w2]. destruct H as (A2 & B2 & C2 & D2 & F2).
+  cbn [snd] in Hl.
+  assert (Hgo : fec_mu {| fe_up := fe_up a1; fe_q := f |} < n ->
+                let '(a', r, w') := fec_loop P n {| fe_up := fe_up a1; fe_q := f |} t w2 in
+                r = RetPending -> fec_sat a' w').
+  { intros Hlt. apply (IH {| fe_up := fe_up a1; fe_q := f |} w2); auto. }
+  assert (Hmu_eq : forall f', fub_len f' = fub_len (fe_q a1) ->
+                    fec_mu {| fe_up := fe_up a1; fe_q := f' |} = fec_mu a1).
+  { intros f' Hf. unfold fec_mu; simpl. destruct (fe_up a1); lia. }
+  (* leaving with Pending: nothing was pulled in this round, and the queue kept its size *)
+  assert (Hexit : fub_len f = fub_len (fe_q a1) -> pulled = false ->
+                  fec_sat {| fe_up := fe_up a1; fe_q := f |} w2).
+  { intros Hlen Hp. destruct (Hsat Hp) as [S|[S|S]].
+    - left. simpl. unfold fub_cap in *. rewrite D2, Hlen. exact S.
+    - right; left. exact S.
+    - right; right. unfold lu in *. rewrite Hl. exact S. }
+  destruct sp as [| |tk c]; simpl.
+  - destruct F2 as [F3 F4]. destruct pulled.
+    + apply Hgo. rewrite Hmu_eq by (unfold fub_len; auto). lia.
+    + intros _. apply Hexit; auto.
+  - destruct F2 as (F3 & -> & ->).
+    destruct (fe_up a1) eqn:Hu1; [|discriminate].
+    destruct pulled.
+    + apply Hgo. unfold fec_mu in *; simpl. rewrite Hu1 in *. lia.
+    + intros _. exact (Hexit eq_refl eq_refl).
+  - destruct F2 as [F3 F4]. apply Hgo.
+    unfold fec_mu in *; simpl. unfold fub_len in *. destruct (fe_up a1); destruct pulled; lia.
+Qed.
+
+Theorem fec_pending_is_work_conserving own a t w :
+  winv own None w -> fub_ok own (fe_q a) -> up_live (fe_up a) ->
+  let '(a', r, w') := fec_poll P a t w in
+  r = RetPending ->
+  fub_cap (fe_q a') <= fub_len (fe_q a') \/ fe_up a' = None \/ last_up (log w') = Some UAPend.
+Proof.
+  intros Hw Hok Hul. unfold fec_poll. apply (@fec_loop_work_conserving own); auto.
+  unfold fec_mu, fec_fuel. destruct (fe_up a); lia.
+Qed.
+
 End WithParams.
